@@ -137,8 +137,8 @@ theorem copyRange_agree {r : Bytes} {len st en : Nat} (hlen : len < u64Mod)
           · simp [hb] at h
 
 /-- `upload_part_copy` comparable: part number within 1..10000 [else fs:part-number-not-validated], the upload exists for this
-    bucket and key [fs:unknown-upload-code, fs:upload-not-bound-to-key], source names agree, the source bucket exists
-    [fs:missing-bucket-reported-as-missing-key], the source is not a directory and its size fits `i64`; a
+    bucket and key [fs:unknown-upload-code, fs:upload-not-bound-to-key], source names agree (a missing source bucket is
+    inside since 391a940: `NoSuchBucket` on both sides), the source is not a directory and its size fits `i64`; a
     `x-amz-copy-source-range`, if given, is one the store accepts: `bytes=first-last` inside the source
     [else fs:part-copy-range-unchecked] -/
 def UploadPartCopyOk (s : State) (b k : Bytes) (u : UploadRef) (n : Int) (sb sk : Bytes) (range : Option Bytes) : Prop :=
@@ -148,7 +148,7 @@ def UploadPartCopyOk (s : State) (b k : Bytes) (u : UploadRef) (n : Int) (sb sk 
     | none => True
     | some sp =>
       match s.tree sb with
-      | none => False
+      | none => True
       | some st =>
         match st.node sp with
         | none => True
@@ -201,7 +201,12 @@ theorem uploadPartCopy_refines (H : Hashes) (dl : Nat) {s : State} (hi : Inv s) 
         simp only at hsrc hscanon
         have hsp : PathOk sp := keyPath_pathOk hskp
         cases hst : s.tree sb with
-        | none => rw [hst] at hsrc; exact absurd hsrc (by simp)
+        | none =>
+          have hsabs : (abs s).bucket sb = none := by rw [abs_bucket, hst]; rfl
+          have hh : alHas sb s.buckets = false := by
+            unfold State.tree at hst; simp [alHas, hst]
+          simp [step, StoreSpec.step, State.verify, hl, hown, hnr, hup, hown', objPath, hsbd, hskp, hsbo, hsko,
+            hsabs, State.node, hst, hh, hi]
         | some st =>
           rw [hst] at hsrc
           simp only at hsrc
@@ -211,9 +216,11 @@ theorem uploadPartCopy_refines (H : Hashes) (dl : Nat) {s : State} (hi : Inv s) 
           have hsnode : s.node sb sp = st.node sp := by simp [State.node, hst]
           cases hsn : st.node sp with
           | none =>
+            have hh : alHas sb s.buckets = true := by
+              unfold State.tree at hst; simp [alHas, hst]
             rw [hsn] at hslook
             simp [step, StoreSpec.step, State.verify, hl, hown, hnr, hup, hown', objPath, hsbd, hskp, hsbo, hsko,
-              hsabs, hsnode, hsn, hslook, hi]
+              hsabs, hsnode, hsn, hslook, hh, hi]
           | some nd =>
             cases nd with
             | dir => rw [hsn] at hsrc; exact absurd hsrc (by simp)
